@@ -365,23 +365,26 @@ def run_change(b: Builder, sc, seed):
     alg = _make_alg(algname, K, T, q)
     keys = jax.random.split(jax.random.key(seed), NPW)
     base = dict(model=sc["model"], o=sc["o"], prop=sc["prop"], model2=sc["model2"], o2=sc["o2"], alg=algname, K=K,
+                grow=int(bool(sc.get("grow"))),
                 propkind=(b.props[sc["prop"]]["kind"] if sc["prop"] != "none" else "none"))
 
     def f(key):
         pc = alg.run_smc(key)
         pc2 = ChangeTarget(alg, T2).run_smc(key)
         return (b.project(m, pc.get_particles().get_choices()), pc.get_log_weights(),
-                b.project(m2, pc2.get_particles().get_choices()), pc2.get_log_weights())
+                b.project(m2, pc2.get_particles().get_choices()), pc2.get_log_weights(),
+                pc2.get_log_marginal_likelihood_estimate())
 
     try:
-        p1, l1, p2, l2 = jax.jit(jax.vmap(f))(keys)
+        p1, l1, p2, l2, ml2 = jax.jit(jax.vmap(f))(keys)
     except Exception as e:
         return [dict(base, op="smcfail", status=_status(e), msg=str(e)[:300])]
     p1 = np.asarray(p1).reshape(NPW, K, -1)
     p2 = np.asarray(p2).reshape(NPW, K, -1)
+    l2lin, ml2lin = _lin(np.asarray(l2).reshape(NPW, K), 16), _lin(np.asarray(ml2), 16)
     l1, l2 = _fx(np.asarray(l1).reshape(NPW, K)), _fx(np.asarray(l2).reshape(NPW, K))
     return [dict(base, op="change", parts=p1[j].tolist(), lw=l1[j].tolist(), parts2=p2[j].tolist(),
-                 lw2=l2[j].tolist()) for j in range(NPW)]
+                 lw2=l2[j].tolist(), lw2lin=l2lin[j].tolist(), lml2lin=int(ml2lin[j])) for j in range(NPW)]
 
 
 # ----------------------------------------------------------------------------
@@ -642,7 +645,7 @@ ROLE_A = {
     "C25": (["marg"], ["TablesNormalized", "MarginalUnbiased", "MarginalExact", "MarginalGuardCoverage"]),
     "C26": (["smc", "change"], ["TablesNormalized", "SamplerNormalized", "WeightIsRatio", "EvidenceUnbiased",
                                 "EvidenceUnbiasedK", "PAlgIsDistribution", "PAlgK1IsProposal", "DensitySampler",
-                                "DensityEstimator", "PAlgApproachesPosterior", "ChangeProper"]),
+                                "DensityEstimator", "PAlgApproachesPosterior", "ChangeProper", "ChangeGrowMass", "ChangeParticle"]),
     "C27": (["mh"], ["TablesNormalized", "MHAntisymmetric", "MHDetailedBalance", "MHStationary", "MHOldArgsDiffers"]),
 }
 
@@ -699,9 +702,16 @@ def _select(prop_id, cases, tier, seed):
             k = (c["model"], c["prop"] != "none", c["model2"] != c["model"])
             (pick if k not in seen else rest).append(c)
             seen.add(k)
-        chg = (pick + rest)[:12]
+        same = [c for c in pick + rest if not c.get("grow")][:8]
+        # "one more observation arrives": one per model, preferring scenarios whose proposal proposed the site
+        grow, seen = [], set()
+        for c in sorted((c for c in chg if c.get("grow")), key=lambda c: c["prop"] == "none"):
+            if c["model"] not in seen:
+                seen.add(c["model"])
+                grow.append(c)
+        chg = same + grow[:8]
     else:
-        chg = chg[:400]
+        chg = [c for c in chg if not c.get("grow")][:300] + [c for c in chg if c.get("grow")][:200]
     for n, c in enumerate(smc):
         if tier == "quick":
             c["algs"] = [[("imp", 1), ("k1", 1)][n % 2]] if c["K"] == 1 else [("k2", 2)]
